@@ -5,6 +5,7 @@ package props
 
 import (
 	"bytes"
+	"cosmossdk.io/x/feegrant"
 	"encoding/hex"
 	"encoding/json"
 	"fmt"
@@ -48,7 +49,7 @@ func TestC17_JobsImmutableAndRunsCarryCaller(t *testing.T) {
 		// on bnb-main sometimes no snapshot is recorded as published: the pre-execution hook (just-in-time validator-set
 		// update) fails there, and the request has to schedule the call all the same
 		unpublished := map[string]bool{"bnb-main": rapid.IntRange(0, 2).Draw(t, "bnbWithoutPublishedSnapshot") == 0}
-		c, err := chain.New(chain.Options{Salt: salt, Stakes: []int64{100_000_000, 100_000_000, 100_000_000}, Users: []string{"u0", "u1"}, EvmChains: chains, UnpublishedChains: unpublished})
+		c, err := chain.New(chain.Options{Salt: salt, Stakes: []int64{100_000_000, 100_000_000, 100_000_000}, Users: []string{"u0", "u1", "g0"}, EvmChains: chains, UnpublishedChains: unpublished})
 		if err != nil {
 			t.Fatalf("boot: %v", err)
 		}
@@ -57,11 +58,19 @@ func TestC17_JobsImmutableAndRunsCarryCaller(t *testing.T) {
 			t.Fatalf("ready: %v", err)
 		}
 		users := []chain.Actor{c.Users["u0"], c.Users["u1"]}
+		// g0 holds a fee grant from u0 and may therefore sign requests in u0's name (delegated execution: the caller
+		// identity is the creator u0, not the key that signed)
+		g0 := c.Users["g0"]
+		grant, _ := feegrant.NewMsgGrantAllowance(&feegrant.BasicAllowance{}, users[0].Addr, g0.Addr)
+		if res, err := c.Block(c.MustSign(users[0], grant)); err != nil || res.TxResults[0].Code != 0 {
+			t.Fatalf("grant: %v %v", err, res)
+		}
 		contracts := []sdk.AccAddress{bytes.Repeat([]byte{0xc7}, 32), append(bytes.Repeat([]byte{0x00}, 12), bytes.Repeat([]byte{0x5a}, 20)...)}
 		jobs := map[string]*c17Job{}
 		var log []string
 		lastID := map[string]uint64{}
 		okRuns, failRuns := 0, 0
+		delegatedRuns := 0
 		modWithPayload, fixedWithPayload, failBetween := false, false, false
 		lastWasFail := false
 
@@ -258,6 +267,21 @@ func TestC17_JobsImmutableAndRunsCarryCaller(t *testing.T) {
 				judgeRun(t, id, u.Addr, supplied, ok, desc)
 				checkJobs()
 			},
+			"executeByGrantee": func(t *rapid.T) {
+				id := pickID(t)
+				res, err := c.Block(c.MustSign(g0, &schedtypes.MsgExecuteJob{Metadata: chain.MDAs(users[0].Addr, g0), JobID: id}))
+				if err != nil {
+					t.Fatalf("block: %v", err)
+				}
+				ok := res.TxResults[0].Code == 0
+				desc := fmt.Sprintf("execute(u0 signed by its grantee,%q)", id)
+				log = append(log, fmt.Sprintf("%s=%v", desc, ok))
+				if ok {
+					delegatedRuns++
+				}
+				judgeRun(t, id, users[0].Addr, nil, ok, desc)
+				checkJobs()
+			},
 			"executeByContract": func(t *rapid.T) {
 				ca := rapid.SampledFrom(contracts).Draw(t, "contract")
 				id := pickID(t)
@@ -291,6 +315,9 @@ func TestC17_JobsImmutableAndRunsCarryCaller(t *testing.T) {
 		}
 		if failBetween {
 			labels = append(labels, "failureBetweenSuccesses")
+		}
+		if delegatedRuns > 0 {
+			labels = append(labels, "delegatedRun")
 		}
 		if unpublished["bnb-main"] {
 			labels = append(labels, "bnbWithoutPublishedSnapshot")
